@@ -85,12 +85,9 @@ def pmap(fn: T.Callable, items: T.Iterable, jobs: int = 0, chunksize: int = 1, i
         for r in pool.imap(fn, items, chunksize):
             yield r
     except GeneratorExit:
-        # the consumer stopped early: the workers are of no further use
-        for p in list(getattr(pool, '_pool', [])):
-            try:
-                p.kill()
-            except Exception:
-                pass
+        # the consumer stopped early (e.g. zip() with a shorter first argument): the workers are idle or finishing; terminate()
+        # is safe here (never kill them by hand: an idle worker holds the queue's read lock, which terminate() then waits for)
+        pool.terminate()
         raise
     except BaseException:
         # an exception raised in a worker (or while collecting): the check is broken, never a verdict
